@@ -8,7 +8,7 @@ seeds = sys.argv[1:] or sorted(d for d in os.listdir(ROOT) if os.path.isdir(os.p
 def sh(cmd, **kw):
     return subprocess.run(cmd, shell=True, capture_output=True, text=True, **kw)
 ALSO = {"C06-m1": ["C15"], "C03-m2": ["C16"], "C05-m1": ["C06"], "C14-m2": ["C06"], "C06-m4": ["C15"], "C08-m4": ["C20"], "C15-m4": ["C06"],
-        "C01-m3": ["C12"], "C02-m3": ["C17"], "C12-m3": ["C09"], "C03-m5": ["C13"], "C04-m7": ["C15"], "C03-m8": ["C06"]}
+        "C01-m3": ["C12"], "C02-m3": ["C17"], "C12-m3": ["C09"], "C03-m5": ["C13"], "C04-m7": ["C15"], "C03-m8": ["C06"], "C15-m14": ["C06"]}
 man = json.load(open("/verif/MANIFEST.json"))
 claimed = {c["property_id"] for c in man["checks"]}
 for s in seeds:
